@@ -7,11 +7,15 @@ import (
 	"fmt"
 	"os"
 	"path/filepath"
+	"runtime/pprof"
 	"strconv"
 	"time"
 
+	"github.com/vedadiyan/genql"
 	"github.com/vedadiyan/genql/vrt"
+	"verif/harness/gq"
 	"verif/harness/core"
+	"verif/harness/explore"
 	_ "verif/harness/props"
 )
 
@@ -21,6 +25,12 @@ func main() {
 	}
 	vrt.OnAbort = func(kind, detail string) {
 		core.AbortCase(core.CurProp+"|scheduler-abort|"+kind, kind+": "+detail, core.CurDesc())
+	}
+	explore.Heartbeat = core.Heartbeat
+	if pf := os.Getenv("VERIF_CPUPROFILE"); pf != "" {
+		f, _ := os.Create(pf)
+		pprof.StartCPUProfile(f)
+		defer pprof.StopCPUProfile()
 	}
 	switch os.Args[1] {
 	case "worker":
@@ -57,7 +67,9 @@ func main() {
 		// vcheck one <ID> <tier> <idx>: run a single case in this process and print its result
 		id, tier := os.Args[2], os.Args[3]
 		idx, _ := strconv.Atoi(os.Args[4])
-		os.Exit(core.RunOne(id, tier, idx, ""))
+		rc := core.RunOne(id, tier, idx, "")
+		pprof.StopCPUProfile()
+		os.Exit(rc)
 	case "replay":
 		b, err := os.ReadFile(os.Args[2])
 		if err != nil {
@@ -75,6 +87,34 @@ func main() {
 			os.Exit(2)
 		}
 		os.Exit(core.RunOne(rep.Property, rep.Tier, rep.Index, rep.Sig))
+	case "sql":
+		// vcheck sql '<json doc>' '<sql>' [wrapped|pg|idiomatic ...]: run one query and print the outcome (probe tool)
+		var doc map[string]any
+		if err := json.Unmarshal([]byte(os.Args[2]), &doc); err != nil {
+			fmt.Fprintln(os.Stderr, err)
+			os.Exit(2)
+		}
+		var opts []genql.QueryOption
+		for _, a := range os.Args[4:] {
+			switch a {
+			case "wrapped":
+				opts = append(opts, genql.Wrapped())
+			case "pg":
+				opts = append(opts, genql.PostgresEscapingDialect())
+			case "idiomatic":
+				opts = append(opts, genql.IdomaticArrays())
+			}
+		}
+		o := gq.Run(doc, os.Args[3], opts...)
+		fmt.Printf("status=%s err=%v panic=%q gpanic=%q\nrows=%s\ndoc-after=%s\n", o.Status(), o.Err, o.Panic, o.GPanic, gq.Render(o.Rows), gq.Render(doc))
+	case "sel":
+		var doc any
+		if err := json.Unmarshal([]byte(os.Args[2]), &doc); err != nil {
+			fmt.Fprintln(os.Stderr, err)
+			os.Exit(2)
+		}
+		v, err, pan := gq.Reader(doc, os.Args[3])
+		fmt.Printf("value=%s err=%v panic=%q\n", gq.Render(v), err, pan)
 	case "list":
 		for _, id := range core.IDs() {
 			fmt.Println(id)
